@@ -911,3 +911,97 @@ Lemma nonvacuous_history :
   (let s := run true ex_history init in
    escrow s = 0 /\ denoms s !! 0%N = None /\ zget (bank s) 0%N = 56 /\ zget (bank s) 3%N = 4).
 Proof. exact (conj ex_history_all_ok ex_history_final). Qed.
+
+(** * a liquid denom's recorded schedule only ever shrinks, index-wise; its start
+    and end never move; a deleted denom never comes back *)
+Lemma step_denoms_cases fixed s o s' r :
+  Inv s -> step fixed s o = (s', r) ->
+  (counter s <= counter s')%N /\
+  forall d, (d < counter s)%N ->
+    match denoms s !! d, denoms s' !! d with
+    | Some den, Some den' =>
+        d_start den' = d_start den /\ d_end den' = d_end den /\
+        forall tau, ev (d_start den') (d_periods den') tau <= ev (d_start den) (d_periods den) tau
+    | None, Some _ => False
+    | _, None => True
+    end.
+Proof.
+  intros HI E.
+  assert (Same : denoms s' = denoms s -> counter s' = counter s ->
+          (counter s <= counter s')%N /\
+          forall d, (d < counter s)%N ->
+            match denoms s !! d, denoms s' !! d with
+            | Some den, Some den' =>
+                d_start den' = d_start den /\ d_end den' = d_end den /\
+                forall tau, ev (d_start den') (d_periods den') tau <= ev (d_start den) (d_periods den) tau
+            | None, Some _ => False
+            | _, None => True
+            end).
+  { intros -> ->. split; [lia|]. intros d _. destruct (denoms s !! d); [|done]. repeat split; try done; intros; lia. }
+  destruct (N.eq_dec r OK) as [->|Hr].
+  2: { assert (s' = s) as -> by exact (step_fail _ _ _ _ _ E Hr). by apply Same. }
+  destruct o; cbn [step] in E.
+  - unfold mk_vest in E. destruct (accts s !! a); [by inversion E|].
+    destruct (negb _); [by inversion E|]. inversion E; subst s'. by apply Same.
+  - destruct (x <? 0); inversion E; subst s'; by apply Same.
+  - destruct (minl <=? 0); inversion E; subst s'; by apply Same.
+  - destruct (liquidate_ok _ _ _ _ _ _ E) as
+      (va & dec & diff & decv & dv & Hx & He & Hm & Hva & Hv & Hl0 & Hlx & Hs & Hsv & Hb & ->).
+    cbn [denoms counter]. split; [lia|]. intros d Hd. rewrite lookup_insert_ne by lia.
+    destruct (denoms s !! d); [|done]. repeat split; try done; intros; lia.
+  - destruct (redeem_ok _ _ _ _ _ _ _ _ E) as (den & dec & diff & ac & Hx & He & Hd & Hh & Hs & Hesc & Hac & ->).
+    cbn [denoms counter]. split; [lia|]. intros d' Hd'.
+    destruct (inv_dens _ HI _ _ Hd) as ((D1 & D2 & D3) & _).
+    assert (Hx0 : 0 <= x) by lia.
+    destruct (split_exact _ _ _ _ D2 Hx0 Hs) as (S3 & _ & _).
+    destruct (decide (d = d')) as [<-|Hne].
+    + rewrite Hd. destruct (total dec =? 0); [by rewrite lookup_delete|].
+      rewrite lookup_insert. cbn [d_start d_end d_periods]. repeat split; try done.
+      intros tau. apply (split3_ev_le _ _ _ S3).
+    + assert (Hl : (if total dec =? 0 then delete d (denoms s)
+                    else <[d := mkdenom (d_start den) (d_end den) dec]> (denoms s)) !! d' = denoms s !! d').
+      { destruct (total dec =? 0); [by rewrite lookup_delete_ne|by rewrite lookup_insert_ne]. }
+      rewrite Hl. destruct (denoms s !! d'); [|done]. repeat split; try done; intros; lia.
+  - destruct (xfer_ok _ _ _ _ _ _ E) as (_ & _ & ->). by apply Same.
+Qed.
+
+Theorem denom_schedule_only_shrinks fixed ops : forall s d den den',
+  Inv s -> denoms s !! d = Some den -> denoms (run fixed ops s) !! d = Some den' ->
+  d_start den' = d_start den /\ d_end den' = d_end den /\
+  forall tau, ev (d_start den') (d_periods den') tau <= ev (d_start den) (d_periods den) tau.
+Proof.
+  assert (Dead : forall ops s d, Inv s -> (d < counter s)%N -> denoms s !! d = None ->
+                                 denoms (run fixed ops s) !! d = None).
+  { clear ops. induction ops as [|o r IH]; intros s d HI Hd Hn; [done|]. cbn [run fold_left].
+    destruct (step fixed s o) as [s1 r1] eqn:E. cbn [fst].
+    destruct (step_denoms_cases fixed s o s1 r1 HI E) as [Hc Hcases].
+    pose proof (step_inv fixed s o HI) as HI1. rewrite E in HI1. cbn [fst] in HI1.
+    apply (IH s1 d HI1); [lia|]. specialize (Hcases d Hd). rewrite Hn in Hcases.
+    destruct (denoms s1 !! d); [done|done]. }
+  induction ops as [|o r IH]; intros s d den den' HI Hd Hd'.
+  - cbn in Hd'. rewrite Hd in Hd'. injection Hd' as <-. repeat split; try done; intros; lia.
+  - cbn [run fold_left] in Hd'. destruct (step fixed s o) as [s1 r1] eqn:E. cbn [fst] in Hd'.
+    destruct (step_denoms_cases fixed s o s1 r1 HI E) as [Hc Hcases].
+    pose proof (step_inv fixed s o HI) as HI1. rewrite E in HI1. cbn [fst] in HI1.
+    destruct (inv_dens _ HI _ _ Hd) as (_ & _ & _ & Hlt).
+    specialize (Hcases d Hlt). rewrite Hd in Hcases.
+    destruct (denoms s1 !! d) as [den1|] eqn:E1.
+    + destruct Hcases as (A & B & C).
+      destruct (IH s1 d den1 den' HI1 E1 Hd') as (A' & B' & C').
+      repeat split; try congruence. intros tau. specialize (C tau). specialize (C' tau).
+      rewrite A' in C'. rewrite A' , A in *. lia.
+    + assert (Hlt1 : (d < counter s1)%N) by lia.
+      pose proof (Dead r s1 d HI1 Hlt1 E1) as Hdead. fold (run fixed r s1) in Hd'. congruence.
+Qed.
+
+Lemma run_app fixed a b s : run fixed (a ++ b) s = run fixed b (run fixed a s).
+Proof. unfold run. apply fold_left_app. Qed.
+
+Lemma denom_shrinks_all_histories ops1 ops2 d den den' :
+  denoms (run true ops1 init) !! d = Some den ->
+  denoms (run true (ops1 ++ ops2) init) !! d = Some den' ->
+  d_start den' = d_start den /\ d_end den' = d_end den /\
+  forall tau, ev (d_start den') (d_periods den') tau <= ev (d_start den) (d_periods den) tau.
+Proof.
+  rewrite run_app. apply denom_schedule_only_shrinks, inv_reachable.
+Qed.
